@@ -13,7 +13,7 @@ LEVEL = "model_checking"
 OPS = ["id", "sum", "add", "dot", "get_at", "add_at", "flip", "argmax"]
 PLAN_QUICK = [(["id", "sum", "flip", "argmax"], 2, 1), (["add", "dot"], 2, 0), (["add"], 1, 1), (["get_at", "add_at"], 2, 0)]
 PLAN_THOROUGH = [(["id", "sum", "flip", "argmax", "softmax", "roll"], 3, 1), (["add", "dot", "where"], 2, 1), (["get_at", "add_at", "set_at"], 2, 1)]
-SIGNATURES = ["shape", "shape,name", "shape,*,arg_index", "shape,name=None,arg_index=None,signature=None", "shape,**kw", "callable-object", "builtin"]
+SIGNATURES = ["shape", "shape,name", "shape,*,arg_index", "shape,name=None,arg_index=None,signature=None", "shape,**kw", "callable-object", "wrapped:shape", "wrapped:shape,name", "builtin"]
 BEHAVIOURS = ["correct", "wrong-shape", "wrong-type", "none", "raises"]
 
 
@@ -40,6 +40,17 @@ def make_factory(sig, behaviour, product, log, tag):
             log.append((tag, shape, {"name": name, "arg_index": arg_index, "signature": signature})); return produce(shape)
     elif sig == "shape,**kw":
         def f(shape, **kw): log.append((tag, shape, dict(kw))); return produce(shape)
+    elif sig.startswith("wrapped:"):
+        # a factory under a signature-preserving decorator: the wrapper takes (*args, **kwargs), the declared signature is the wrapped one's
+        import functools
+        if sig == "wrapped:shape":
+            def inner(shape): log.append((tag, shape, {})); return produce(shape)
+        else:
+            def inner(shape, name): log.append((tag, shape, {"name": name})); return produce(shape)
+
+        @functools.wraps(inner)
+        def f(*args, **kwargs):
+            return inner(*args, **kwargs)
     elif sig == "callable-object":
         class F:
             def __call__(self, shape): log.append((tag, shape, {})); return produce(shape)
@@ -50,7 +61,7 @@ def make_factory(sig, behaviour, product, log, tag):
 
 
 DECLARED = {"shape": set(), "shape,name": {"name"}, "shape,*,arg_index": {"arg_index"}, "shape,name=None,arg_index=None,signature=None": {"name", "arg_index", "signature"},
-            "shape,**kw": {"name", "arg_index", "signature"}, "callable-object": set()}
+            "shape,**kw": {"name", "arg_index", "signature"}, "callable-object": set(), "wrapped:shape": set(), "wrapped:shape,name": {"name"}}
 
 
 def full_sizes(call):
@@ -101,6 +112,9 @@ def variants_for(npos):
         out.append(((p,), "builtin", "correct"))
     for k in range(2, npos + 1):
         for sub in itertools.combinations(range(npos), k):
+            # factories of different signatures in one call: each must receive exactly ITS declared keywords
+            out.append((sub, "mixed:" + "|".join(["shape", SIGNATURES[3]][i % 2] for i in range(k)), "correct"))
+            out.append((sub, "mixed:" + "|".join([SIGNATURES[3], "shape", "shape,**kw"][i % 3] for i in range(k)), "correct"))
             out.append((sub, SIGNATURES[3], "correct"))
             out.append((sub, "shape", "wrong-shape"))
             out.append((sub, "shape,**kw", "correct"))
@@ -134,7 +148,8 @@ def run_variants(call, seed):
             hist["evaluations"] += 1
             if not ok: bad.append(_v(call, sub, sig, beh, "builtin factory np.ones: result differs from passing np.ones(shape) as a tensor"))
             continue
-        fargs = [make_factory(sig, beh, a, log, i) if i in sub else a.copy() for i, a in enumerate(args)]
+        sigs = dict(zip(sub, sig[6:].split("|"))) if sig.startswith("mixed:") else {i: sig for i in sub}
+        fargs = [make_factory(sigs[i], beh, a, log, i) if i in sub else a.copy() for i, a in enumerate(args)]
         # graph=True first (compiles): no invocation while compiling or for graph=True
         try:
             code = einx_call(call, fargs, sizes, graph=True)
@@ -160,7 +175,9 @@ def run_variants(call, seed):
             if beh == "correct":
                 if outcome != "value":
                     bad.append(_v(call, sub, sig, beh, f"{rep}: raised {outcome} with well-behaved factories")); break
-                msg = check_log(log, sub, call, sig, 1, rep)
+                msg = None
+                for i in sub:
+                    msg = msg or check_log([l for l in log if l[0] == i], (i,), call, sigs[i], 1, rep)
                 if msg: bad.append(_v(call, sub, sig, beh, msg)); break
                 if not calls.same_value(call, got, ref):
                     bad.append(_v(call, sub, sig, beh, f"{rep}: result differs from passing the factory's return value as an ordinary tensor")); break
